@@ -233,6 +233,14 @@ func (s *Stream) Read(buffer []byte) (int, error) {
 	}
 	s.receiveBufferLock.Unlock()
 
+	// If we didn't read any data (which can occur if the caller provides a
+	// zero-length buffer), then there's no window capacity to return, and we
+	// must not send a zero-valued window increment because the remote would
+	// treat it as a protocol violation.
+	if count == 0 {
+		return 0, nil
+	}
+
 	// Send a window update corresponding to the amount that we read.
 	select {
 	case s.multiplexer.enqueueWindowIncrement <- windowIncrement{s.identifier, uint64(count)}:
